@@ -156,6 +156,47 @@ func genConc(r *rand.Rand, tier string) input {
 	return in
 }
 
+
+// genBlockedStop: every worker is parked in a slow handler call, other sessions'
+// accepted SENDs are backlogged on their own shards, then Server.Stop (optionally
+// after an expired DrainSends) runs out of its release budget; the slow calls end
+// well after every stop-related deadline.
+func genBlockedStop(r *rand.Rand) input {
+	in := input{Kind: "conc"}
+	in.Workers = 2
+	in.Capacity = vh.Pick(r, 8, 16, 32)
+	in.MaxRecords = vh.Pick(r, 1, 2, 128)
+	in.MaxBytes = 1000
+	in.MaxWaitUs = vh.Pick(r, 0, 20)
+	in.Sessions = 3 + r.IntN(3)
+	in.Aux = 1
+	in.Batch = r.IntN(4) != 0
+	in.CloseOnErr = true
+	slow := vh.Pick(r, 100000, 150000)
+	for s := 0; s < 2; s++ {
+		in.Ops = append(in.Ops, op{T: s, K: "send", N: 1, Bytes: []int{3}, Lat: []int{slow}, Fail: []int{0}, Ord: []int{0}})
+	}
+	for s := 2; s < in.Sessions; s++ {
+		in.Ops = append(in.Ops, op{T: s, K: "sleep", Us: 4000 + 1000*s})
+		n := 1 + r.IntN(3)
+		o := op{T: s, K: "send", N: n}
+		for i := 0; i < n; i++ {
+			o.Bytes = append(o.Bytes, r.IntN(20))
+			o.Lat = append(o.Lat, vh.Pick(r, 0, 50, 300))
+			o.Fail = append(o.Fail, 0)
+			o.Ord = append(o.Ord, 0)
+		}
+		in.Ops = append(in.Ops, o)
+	}
+	a := in.Sessions
+	in.Ops = append(in.Ops, op{T: a, K: "sleep", Us: 20000})
+	if r.IntN(2) == 0 {
+		in.Ops = append(in.Ops, op{T: a, K: "drain", Us: 1000})
+	}
+	in.Ops = append(in.Ops, op{T: a, K: "stop"})
+	return in
+}
+
 func gen(r *rand.Rand, tier string, i int) input {
 	switch x := r.IntN(10); {
 	case x < 2:
@@ -163,6 +204,9 @@ func gen(r *rand.Rand, tier string, i int) input {
 	case x < 5:
 		return genSeq(r, tier)
 	default:
+		if r.IntN(8) == 0 {
+			return genBlockedStop(r)
+		}
 		return genConc(r, tier)
 	}
 }
